@@ -10,6 +10,7 @@ log=$d/verify.log
 git -C /repo worktree add -q --detach $wt HEAD >>$log 2>&1
 cd $wt
 cp $d/demo.py $wt/demo_seed.py
+[ -d $d/demo_support ] && cp -r $d/demo_support $wt/demo_support
 /venv/bin/python demo_seed.py >>$log 2>&1; echo "demo_pristine_rc=$?" >>$log
 git apply $d/patch.diff >>$log 2>&1; echo "apply_rc=$?" >>$log
 /venv/bin/python demo_seed.py >>$log 2>&1; echo "demo_patched_rc=$?" >>$log
